@@ -351,6 +351,8 @@ class Interp(object):
             if r is not None and r[0] in ('property', 'propcall'):
                 return self.get_class_member(obj.cls, attr, obj)[1]
             if attr in obj.attrs:
+                if self.on_getattr is not None:
+                    self.on_getattr(obj, attr)
                 return obj.attrs[attr]
             ok, v = self.get_class_member(obj.cls, attr, obj)
             if ok:
@@ -424,6 +426,7 @@ class Interp(object):
             raise self.err('cannot set attribute %s on %r' % (attr, type(obj).__name__))
 
     on_setattr = None
+    on_getattr = None        # instance attribute reads (not methods / properties)
 
     def has_dunder(self, obj, name):
         return isinstance(obj, Obj) and obj.cls.lookup(name) is not None
